@@ -44,6 +44,10 @@
 \*     ran and the stored version is the last planned version (a stored version that could not be
 \*     written must not be reported as success); an error is always a *Diagnostics; if the database of
 \*     the version key cannot be read, nothing runs.
+\*  G8 concurrency: Register, InjectDatabase, a first use and Shutdown called at the same time behave as if
+\*     their critical sections ran one after the other in some order (a use is getController followed by the
+\*     controller's Get): a database is started at most once, and every storage that was started or
+\*     injected before Shutdown took effect is shut down by it exactly once.
 \* Where the documentation is silent (Register after Shutdown, the result of a second Shutdown, maintenance
 \* results after Shutdown, LastLoaded after a failed start, the ShadowDelete flag an already loaded database
 \* is maintained with after it was changed, ...) every outcome is allowed.
@@ -66,17 +70,19 @@ D(n, t, d, s, ll) == [n |-> n, t |-> t, d |-> d, s |-> s, ll |-> ll]
 Obj(r) == [some |-> TRUE, t |-> r.t, d |-> r.d, s |-> r.s, ll |-> r.ll]
 None == [some |-> FALSE, t |-> "", d |-> 0, s |-> FALSE, ll |-> FALSE]
 C(n, ev, x) == [n |-> n, ev |-> ev, x |-> x]
+NE(n, ev) == [n |-> n, ev |-> ev]
 NoDiag == [failed |-> 0, wid |-> 0, start |-> 0, lastok |-> 0, target |-> 0, plan |-> <<>>]
 
 Op(name) == [op |-> name, n |-> "", t |-> "", d |-> 0, s |-> FALSE, cap |-> FALSE, per |-> FALSE, mod |-> FALSE,
-             w |-> "", batch |-> <<>>, fails |-> {}, vetoes |-> {}, fll |-> {}, tie |-> <<>>]
+             w |-> "", batch |-> <<>>, fails |-> {}, vetoes |-> {}, fll |-> {}, tie |-> <<>>, par |-> <<>>]
 
 \* err: "ok", "shutdown" (ErrShuttingDown), "boom" (the error of a storage), "diag" (*migration.Diagnostics),
 \*      "err" (any other error); in the model also "anyerr" (the call fails) and "any" (silent)
-\* robj: the objects Register may return; may/must/one: storage life-cycle calls (allowed / names that must
-\* be called / names of which at least one must be called); io: "zero" = no storage may be read or written
+\* robj: the objects Register may return; may/must/one: storage life-cycle calls (allowed / [n, ev] that must
+\* occur / [n, ev] of which at least one must occur); io: "zero" = no storage may be read or written;
+\* errs: the result classes of the operations of a race
 R(err) == [err |-> err, robj |-> {None}, may |-> {}, must |-> {}, one |-> {}, io |-> "zero",
-           runs |-> <<>>, dchk |-> FALSE, diag |-> NoDiag, sv |-> -1]
+           runs |-> <<>>, dchk |-> FALSE, diag |-> NoDiag, sv |-> -1, errs |-> <<>>]
 Out(r, st) == [res |-> r, st |-> st]
 
 Empty == [file |-> {}, sloppy |-> FALSE, ever |-> {}, diskver |-> 0,
@@ -102,10 +108,13 @@ Use(st, n) ==
              est == [st EXCEPT !.ever = @ \cup {n}]
              lst == [est EXCEPT !.mem = SetDesc(@, [r EXCEPT !.ll = TRUE])]
          IN CASE r.t \in {"injected", "ghost"} -> {U({"anyerr"}, lst, {}, {}, "zero"), U({"anyerr"}, est, {}, {}, "zero")}
-              [] r.t = "nostart" -> {U({"anyerr"}, lst, {C(n, "start", r.t)}, {n}, "zero"),
-                                     U({"anyerr"}, est, {C(n, "start", r.t)}, {n}, "zero")}
+              [] r.t = "nostart" -> {U({"anyerr"}, lst, {C(n, "start", r.t)}, {NE(n, "start")}, "zero"),
+                                     U({"anyerr"}, est, {C(n, "start", r.t)}, {NE(n, "start")}, "zero")}
               [] OTHER -> {U({"up"}, [lst EXCEPT !.ctl = @ \cup {[n |-> n, t |-> r.t, sd |-> r.s, cap |-> Capable(r.t)]}],
-                             {C(n, "start", r.t)}, {n}, "any")}
+                             {C(n, "start", r.t)}, {NE(n, "start")}, "any")}
+
+\* getController alone: a loaded database is handed out also after Shutdown (its operations then fail)
+Use1(st, n) == IF st.inited /\ Running(st, n) THEN {U({"up"}, st, {}, {}, "any")} ELSE Use(st, n)
 
 \* ---------------------------------------------------------------- migrations
 Stored(st) == IF Running(st, "core") /\ Ctl(st, "core").t = "disk" THEN st.diskver ELSE st.memver
@@ -153,7 +162,7 @@ MigrateFrom(u, o) ==
            : ord \in {OrderOf(st.migs, P, o.tie)} }
 
 \* ---------------------------------------------------------------- the reference semantics
-Step(st, o) ==
+Step1(st, o) ==
   CASE o.op = "proc" ->
          {Out(R("ok"), [st EXCEPT !.up = TRUE, !.persist = o.per, !.mod = o.mod, !.inited = FALSE, !.shut = FALSE,
                                   !.mem = {}, !.ctl = {}, !.failing = {}, !.migs = <<>>, !.memver = 0])}
@@ -195,8 +204,8 @@ Step(st, o) ==
                       ELSE {SdText(c.sd), SdText(Desc(st, c.n).s)}
              may == UNION {{C(c.n, o.w, x) : x \in xs(c)} : c \in targets}
          IN IF st.shut THEN {Out(R("any"), st)}
-            ELSE IF bad = {} THEN {Out([R("ok") EXCEPT !.may = may, !.must = {c.n : c \in targets}, !.io = "any"], st)}
-            ELSE {Out([R("boom") EXCEPT !.may = may, !.one = bad, !.io = "any"], st)}
+            ELSE IF bad = {} THEN {Out([R("ok") EXCEPT !.may = may, !.must = {NE(c.n, o.w) : c \in targets}, !.io = "any"], st)}
+            ELSE {Out([R("boom") EXCEPT !.may = may, !.one = {NE(n, o.w) : n \in bad}, !.io = "any"], st)}
     [] o.op = "shutdown" ->
          IF st.shut THEN {Out(R("any"), st)}
          ELSE LET names == {c.n : c \in st.ctl}
@@ -204,7 +213,7 @@ Step(st, o) ==
                   nst == [st EXCEPT !.shut = TRUE, !.sloppy = @ \/ st.persist]
                   \* through the module system the error of the stop function arrives wrapped in a module error
                   cls == IF bad = {} THEN "ok" ELSE IF st.mod THEN "anyerr" ELSE "boom"
-              IN {Out([R(cls) EXCEPT !.may = {C(n, "shutdown", "") : n \in names}, !.must = names, !.io = "any"], nst)}
+              IN {Out([R(cls) EXCEPT !.may = {C(n, "shutdown", "") : n \in names}, !.must = {NE(n, "shutdown") : n \in names}, !.io = "any"], nst)}
     [] o.op = "madd" ->
          LET b == o.batch
              n == Len(b)
@@ -220,13 +229,40 @@ Step(st, o) ==
                  ELSE {Out([R("diag") EXCEPT !.may = u.may, !.must = u.must, !.io = u.io], u.st)}
                  : u \in Use(st, "core") }
 
+\* ---------------------------------------------------------------- operations racing each other
+\* o.par: operations (use / inject / register / shutdown) started at the same time, each from its own goroutine.
+\* Implementation-shaped: register, inject and shutdown are one critical section each; a use is two steps
+\* (getController under the controllers lock, then the controller's Get, which looks at the shutdown flag).
+\* Every interleaving of these steps is an allowed outcome.
+RaceSub(q) == [Op(q.op) EXCEPT !.n = q.n, !.t = q.t, !.d = q.d, !.s = q.s, !.cap = q.cap]
+RECURSIVE RaceOut(_, _, _, _, _, _)
+RaceOut(st, par, pc, errs, may, must) ==
+    IF \A i \in 1..Len(par) : pc[i] = 2
+    THEN {Out([R("ok") EXCEPT !.errs = errs, !.may = may, !.must = must, !.io = "any"], st)}
+    ELSE UNION {
+        IF par[i].op = "use" THEN
+            IF pc[i] = 0
+            THEN UNION { IF "up" \in u.clss
+                         THEN RaceOut(u.st, par, [pc EXCEPT ![i] = 1], errs, may \cup u.may, must \cup u.must)
+                         ELSE UNION {RaceOut(u.st, par, [pc EXCEPT ![i] = 2], [errs EXCEPT ![i] = c], may \cup u.may, must \cup u.must) : c \in u.clss}
+                         : u \in Use1(st, par[i].n) }
+            ELSE RaceOut(st, par, [pc EXCEPT ![i] = 2], [errs EXCEPT ![i] = IF st.shut THEN "shutdown" ELSE "ok"], may, must)
+        ELSE UNION { RaceOut(x.st, par, [pc EXCEPT ![i] = 2], [errs EXCEPT ![i] = x.res.err], may \cup x.res.may, must \cup x.res.must)
+                     : x \in Step1(st, RaceSub(par[i])) }
+        : i \in {j \in 1..Len(par) : pc[j] # 2} }
+
+Step(st, o) ==
+    IF o.op = "race"
+    THEN RaceOut(st, o.par, [i \in 1..Len(o.par) |-> 0], [i \in 1..Len(o.par) |-> ""], {}, {})
+    ELSE Step1(st, o)
+
 \* ---------------------------------------------------------------- what an observation must look like
 \* calls: the storage life-cycle calls seen during the operation, in order ([n, ev, x])
 CallsOK(r, calls) ==
     /\ \A i \in 1..Len(calls) : calls[i] \in r.may
-    /\ \A i, j \in 1..Len(calls) : i # j => calls[i].n # calls[j].n
-    /\ r.must \subseteq {calls[i].n : i \in 1..Len(calls)}
-    /\ (r.one # {} => r.one \cap {calls[i].n : i \in 1..Len(calls)} # {})
+    /\ \A i, j \in 1..Len(calls) : i # j => NE(calls[i].n, calls[i].ev) # NE(calls[j].n, calls[j].ev)
+    /\ r.must \subseteq {NE(calls[i].n, calls[i].ev) : i \in 1..Len(calls)}
+    /\ (r.one # {} => r.one \cap {NE(calls[i].n, calls[i].ev) : i \in 1..Len(calls)} # {})
 ErrOK(want, got) == /\ got \in {"ok", "shutdown", "boom", "diag", "err"}
                     /\ CASE want = "any" -> TRUE
                          [] want = "anyerr" -> got # "ok"
@@ -250,7 +286,7 @@ FileIsMem(st) == (st.up /\ st.persist /\ st.inited) =>
 NamesValid(st) == \A r \in st.mem \cup st.file : r.n \in GoodNames
 LoadedSound(st) == \A r \in st.mem \cup st.file : r.ll => r.n \in st.ever
 \* after shutdown nothing is started, nothing touched, no operation reports success on a storage
-ShutQuiet(st, o, x) == (st.shut /\ o.op \notin {"proc", "withdraw"}) =>
+ShutQuiet(st, o, x) == (st.shut /\ o.op \notin {"proc", "withdraw", "race"}) =>
                           /\ x.res.may = {} /\ x.res.io = "zero"
                           /\ x.st.ctl = st.ctl
                           /\ (o.op \in {"use", "inject", "migrate"} => x.res.err \notin {"ok", "any"})
